@@ -10,6 +10,11 @@ from . import common
 from .vloop import VLoop, install, HorizonHit
 
 
+# default budget of "two completions in one selector round" deviations per
+# execution (see VLoop.multi_budget); scenarios may raise it
+MULTI = int(__import__('os').environ.get('VERIF_E2_MULTI', '1'))
+
+
 class Execution:
     def __init__(self, prefix):
         self.prefix = list(prefix)
@@ -34,6 +39,7 @@ def run_one(scenario, prefix, horizon=5000):
     """scenario(loop) -> finish() callable; returns (choices, outcome)."""
     ex = Execution(prefix)
     loop = install(VLoop(chooser=ex.chooser, horizon=horizon))
+    loop.multi_budget = MULTI
     try:
         finish = scenario(loop)
         try:
